@@ -272,14 +272,18 @@ Proof.
   destruct HEu as (HE1 & HE2 & HE3 & HE4 & HE5).
   assert (HF0 : 0 < nF s) by lia.
   (* the size formula agrees with the number of outer half-edges *)
+  assert (Hout1 : nF s = 1 -> length (outer_edges s) = nH s).
+  { intros HF1. unfold outer_edges. rewrite filter_all; [apply seq_length|].
+    intros x Hx. apply in_seq in Hx. apply Nat.eqb_eq.
+    destruct (HRe x) as (_ & _ & Hfx & _); [unfold HE; lia|]. lia. }
+  assert (Hout2 : nF s <> 1 -> length (outer_edges s) + 3 * (nF s - 1) = nH s).
+  { intros HF1. destruct (HE5 HF1) as (_ & Hsum & _). lia. }
+  (* stated against whatever closed form the source currently uses: only the two facts above are needed *)
   assert (Hsize : length (outer_edges s) = convex_hull_size (sizes_of s)).
   { unfold convex_hull_size, all_vertices_on_line, num_all_faces, num_inner_faces,
-      num_directed_edges, sizes_of. cbn [num_faces num_undirected_edges].
-    destruct (Nat.eqb_spec (nF s) 1) as [HF1|HF1].
-    - rewrite HCe. unfold outer_edges. rewrite filter_all; [apply seq_length|].
-      intros x Hx. apply in_seq in Hx. apply Nat.eqb_eq.
-      destruct (HRe x) as (_ & _ & Hfx & _); [unfold HE; lia|]. lia.
-    - destruct (HE5 HF1) as (_ & Hsum & _). lia. }
+      num_directed_edges, sizes_of. cbn [num_faces num_undirected_edges]. cbv zeta.
+    destruct (Nat.eqb_spec (nF s) 1) as [HF1|HF1];
+      [specialize (Hout1 HF1) | specialize (Hout2 HF1)]; lia. }
   unfold hull_iter. unfold WfOuterOrbit in HOO. specialize (HFP 0 HF0).
   destruct (adj s 0) as [a|] eqn:Ea.
   - assert (Ha : a < nH s) by (apply (HRf 0 HF0 a); exact Ea).
